@@ -40,6 +40,7 @@ struct Explorer {
 	Exec* cur = nullptr;				   // execution in progress (for in-callback monitors)
 	std::vector<const void*> addr;		   // access<S>() addresses of the current instance
 	unsigned props = 0;					   // enabled monitors
+	unsigned propsConfigured = 0;		   // ... as given on the command line (props is cleared for auxiliary sub-runs)
 	enum { P_C01 = 1, P_C03 = 2, P_C02 = 4, P_C04 = 8, P_C05 = 16, P_C13 = 32, P_C09 = 64, P_C14 = 128, P_C16 = 256, P_C06 = 512, P_C10 = 1024, P_C08 = 2048, P_C11 = 4096, P_C15 = 8192 };
 
 	explicit Explorer(Options& o) : opt(o) {}
@@ -80,7 +81,7 @@ struct Explorer {
 			x.keyBefore = r.key();
 			if (!node.key.empty() && x.keyBefore != node.key) {
 				++replayChecks;
-				if (props & P_C10) E::R().violation("C10", "replay/history-not-reproducible", "replaying the same history on a fresh instance reaches " + x.keyBefore + " instead of " + node.key, node.hist);
+				if ((props | propsConfigured) & P_C10) E::R().violation("C10", "replay/history-not-reproducible", "replaying the same history on a fresh instance reaches " + x.keyBefore + " instead of " + node.key, node.hist);
 				else engineError("replay of a stored history does not reproduce the stored state key (" + node.key + " vs " + x.keyBefore + ")", node.hist);
 			}
 			x.before = r.snap();
@@ -560,6 +561,7 @@ int main(int argc, char** argv) {
 	}
 	Explorer<FSM> ex(opt);
 	ex.props = Explorer<FSM>::propsFromString(opt.prop);
+	ex.propsConfigured = ex.props;
 #ifdef VT_COUNT_ALLOCS
 	{	// self-test of the allocation interposers: an allocation inside the counting window must be seen, one outside must not
 		void* volatile sink = nullptr;
